@@ -86,8 +86,14 @@ CreateIsEarliest ==
       LET e == st.log[1] IN (e.t = o.t /\ e.n = o.n) \/ Earlier([t |-> e.t, n |-> e.n, pub |-> e.pub], o)
 
 (* C04 (action properties; meaningful with Monotone = TRUE) *)
+(* "Applied" means anchored: a deactivate that is only in the unpublished   *)
+(* store is provisional - published operations take precedence over it     *)
+(* (C02) - so terminality is claimed for PUBLISHED deactivates.  (TLC      *)
+(* found the counterexample: unpublished D, then a published R for the     *)
+(* same commitment.)                                                       *)
+DeactByPublished(S) == LET st == ResolveRef(S) IN st.deact /\ st.log[Len(st.log)].pub
 DeactivationTerminal ==
-  [][res.deact => (res'.deact /\ res'.doc = <<>> /\ res'.uc = NoC /\ res'.rc = NoC)]_vars
+  [][DeactByPublished(store) => (res'.deact /\ res'.doc = <<>> /\ res'.uc = NoC /\ res'.rc = NoC)]_vars
 
 RecoverSupersedes ==
   LET st  == ResolveRef(store)
